@@ -90,6 +90,16 @@ CONFIG = {
         "assumptions": ["probe hooks are the only overridden methods (from_meta / from_nested_meta left at default), as the statement's 2^7 subsets prescribe"],
         "partial": "(b) routing proved and exhaustively corresponded; (a) token-level splitting is added by stream c15a",
     },
+    "C18": {
+        "lean_modules": ["Darling.Props.C18"],
+        "streams": [
+            {"name": "c18api", "n": {"quick": 1, "thorough": 1}, "trivial": lambda case, ans: False},
+            {"name": "c18recv", "n": {"quick": 3000, "thorough": 1000000},
+             "trivial": lambda case, ans: False},
+        ],
+        "rule": "c18api: exhaustive 16 shape sets (built two ways) x 4 shapes through ShapeSet::{contains, check, Display, is_empty}; c18recv: 74 FromDeriveInput receivers (empty, each of the 11 words alone, all 55 pairs, struct-only, enum-only, mixed, repeated) x bodies (4 struct styles, union, every enum of 0..3 [thorough: 0..4] variants over all style combinations; quick samples the larger enums) + 32 FromVariant receivers (all subsets of the 5 variant words) x 4 shapes; distinct by case text",
+        "assumptions": ["the receivers' own `supports(..)` declarations are read back from the compiled corpus source and parsed by the model"],
+    },
     "C05": {
         "lean_modules": ["Darling.Props.C05"],
         "streams": [
